@@ -718,6 +718,7 @@ func init() {
 		Prop: "C17",
 		Rule: "history whose normal twin executed at least 3 user functions (all of which the dry container must skip while reporting the same verdicts)",
 		Gen: genGeneric("C17", func(g *genCtx) {
+			g.ft.DeepChains = true
 			g.ft.FaultRate, g.ft.FaultInv = 0, 0
 			// every path to a user function: with callbacks attached, variadic
 			// signatures, deep scope trees
@@ -1044,6 +1045,8 @@ func init() {
 			// are inputs that must change nothing, too
 			g.ft.Wild = []float64{0, 0.15, 0.4}[g.r.Intn(3)]
 			g.ft.As = g.r.P(0.6)
+			// registrations issued by an invoked function that then fails
+			g.ft.PThenProvide = []float64{0, 0.06, 0.15}[g.r.Intn(3)]
 		}, Mix{Scope: 2, Provide: 8, Decorate: 3, Invoke: 8, VisStr: 4}),
 		Eval:      evalC14,
 		QuickRuns: 50_000,
